@@ -28,6 +28,10 @@ for _p, _n in {'r=a': 7000, 'r=b': 4000, 'r=a=b': 4000, 'a=r.T': 7000, 'b=r.T': 
 _min['max:matrix-double-alias-combos'] = 108
 for _p in ('a=r.T,b=r', 'a=r,b=r.T', 'a=view(r),b=r', 'a=r,b=view(r)'):
     _min['matrix-alias:' + _p] = 3500
+# receiver histories (monitors *.history.*): Real cases whose aliased operand object / container elements went through 2-4 earlier
+# assignments of changing derivative order before the aliased call
+_min.update({'max:scalar-history-combos': 1302, 'max:vector-history-combos': 420, 'max:matrix-history-combos': 414,
+             'history-applied:scalar': 40000, 'history-cases:vector': 12000, 'history-cases:matrix': 12000})
 # the reallocation path: receiver = operand of lower derivative order than another operand
 _min.update({'scalar-recv-lower-order:r=a': 4000, 'scalar-recv-lower-order:r=b': 4000, 'scalar-recv-lower-order:t=a': 2500,
              'scalar-recv-lower-order:t=b': 2500, 'scalar-recv-lower-order:t=r': 2500})
@@ -64,7 +68,11 @@ CFG = {
             'starting before = lag / after = lead), scalar operand = element of the receiver. Matrices (dense and sparse): '
             'M{add,sub,mul,div}{M,S}, MdotM with result = left, = right, = both, operand = transpose view of the receiver, overlapping '
             'slices, scalar operand = element of the receiver; MdotM/MDOTM additionally with both factors aliasing the receiver in '
-            'different ways (a = r.T() & b = r, a = r & b = r.T(), a = full-range Slice view of r & b = r, a = r & b = view). non-trivial = the reference evaluation returned; distinct by type, operation, '
+            'different ways (a = r.T() & b = r, a = r & b = r.T(), a = full-range Slice view of r & b = r, a = r & b = view). Monitors *.history.*: the Real cases again, but the object that is receiver/temporary and operand at once (for containers: every '
+            'stored element of the aliased receiver) first goes through 1-4 library assignments of changing derivative order (2 -> 1 -> 0 -> '
+            '2 ..., same and different N) and is restored through the library to the prescribed observable state before the aliased call; '
+            'the reference uses freshly built operands; a divergence that disappears with plainly built operands is classed needs-history. '
+            'non-trivial = the reference evaluation returned; distinct by type, operation, '
             'pattern and explicit operands.',
     'min_cov': _min,
     'tolerances': 'exact policy (DESIGN.md 2.4): == on value and every derivative slot (-0 == +0, NaN == NaN, missing slots read as zero); both '
